@@ -64,8 +64,9 @@ type Result struct {
 	SubSeed    uint64              `json:"sub_seed,omitempty"`
 	Digest     string              `json:"digest,omitempty"`
 	// filled by the driver
-	exit   int
-	stderr string
+	exit    int
+	crashed bool
+	stderr  string
 	wallMs int64
 }
 
@@ -145,6 +146,14 @@ func runWorker(spec Spec) *Result {
 		// test (panic escaping MOSN, fatal error) or of the harness.
 		res.Infra = "worker died without result"
 		res.Panic = tail(stderr.String(), 6000)
+		// A Go panic or fatal error that escapes the system under test kills the
+		// process: that is a violation of C08 (malformed input / any input must never
+		// crash the proxy) when MOSN code is on the stack of the failing goroutine.
+		if cls := crashClass(stderr.String()); cls != "" {
+			res.Infra = ""
+			res.Violations = append(res.Violations, sim.Violation{Property: "C08", Class: "process_crash:" + cls, Detail: "the worker process died: " + firstLines(stderr.String(), 12)})
+			res.crashed = true
+		}
 	}
 	if err != nil {
 		if ee, ok := err.(*exec.ExitError); ok {
@@ -155,6 +164,44 @@ func runWorker(spec Spec) *Result {
 	}
 	res.stderr = tail(stderr.String(), 4000)
 	return res
+}
+
+// crashClass returns the first MOSN frame of a panic / fatal error trace ("" if
+// the process did not die that way or no MOSN frame is involved).
+func crashClass(out string) string {
+	i := strings.Index(out, "panic: ")
+	if j := strings.Index(out, "fatal error: "); j >= 0 && (i < 0 || j < i) {
+		i = j
+	}
+	if i < 0 {
+		return ""
+	}
+	for _, l := range strings.Split(out[i:], "\n") {
+		l = strings.TrimSpace(l)
+		if strings.HasPrefix(l, "mosn.io/mosn/pkg/") && !strings.Contains(l, "verifhook") {
+			if k := strings.Index(l, "("); k > 0 {
+				l = l[:k]
+			}
+			return strings.TrimPrefix(l, "mosn.io/mosn/pkg/")
+		}
+		if strings.HasPrefix(l, "verif/") {
+			return "" // the harness itself is on the failing stack first: infrastructure
+		}
+	}
+	return ""
+}
+
+func firstLines(s string, n int) string {
+	if i := strings.Index(s, "panic: "); i >= 0 {
+		s = s[i:]
+	} else if i := strings.Index(s, "fatal error: "); i >= 0 {
+		s = s[i:]
+	}
+	ls := strings.Split(s, "\n")
+	if len(ls) > n {
+		ls = ls[:n]
+	}
+	return strings.Join(ls, " | ")
 }
 
 func tail(s string, n int) string {
@@ -183,6 +230,7 @@ var props = map[string]propDef{
 	"C10": {"C10", "proxy", 40, 600, "W-proxy", 0, 0},
 	"C09": {"C09", "proxy", 40, 600, "W-proxy", 0, 0},
 	"C07": {"C07", "proxy", 40, 600, "W-proxy", 0, 4},
+	"C08": {"C08", "proxy", 40, 600, "W-proxy", 0, 0},
 	"C05": {"C05", "lb", 30, 600, "W-lb", 200, 0},
 	"C06": {"C06", "lb", 30, 600, "W-lb", 50, 0},
 	"C16": {"C16", "health", 30, 600, "W-health", 100, 0},
@@ -605,6 +653,17 @@ func cmdCheck(args []string) int {
 	for _, k := range keys {
 		vc := a.viol[k]
 		nViol++
+		if vc.res.crashed {
+			rf := &sim.ReplayFile{Property: vc.prop, Arm: pd.ID, World: pd.World, Tier: *tier, Seed: vc.seed, SeedOnly: true, Class: vc.class, Detail: vc.detail}
+			dir := filepath.Join(root, "replays", vc.prop)
+			os.MkdirAll(dir, 0o755)
+			path := filepath.Join(dir, fmt.Sprintf("%s-%d.json", sanitize(vc.class), vc.seed))
+			rf.Save(path)
+			lines = append(lines, fmt.Sprintf("VIOLATION property=%s replay=%s", vc.prop, path), "  "+vc.detail)
+			replayInfo = append(replayInfo, map[string]any{"property": vc.prop, "class": vc.class, "replay": path, "runs": vc.count})
+			exit = 1
+			continue
+		}
 		if vc.class == "segmentation_dependent" {
 			// a property of a pair of runs: nothing to shrink within one run; the replay
 			// re-runs the seed under every variant and compares the digests again
@@ -814,7 +873,7 @@ func cmdReplay(args []string) int {
 		fmt.Println("replay did not reproduce the violation")
 		return 0
 	}
-	r := runWorker(Spec{Prop: arm, World: world, Seed: rf.Seed, Choices: rf.Choices, Replay: true, LogKeep: 5000})
+	r := runWorker(Spec{Prop: arm, World: world, Seed: rf.Seed, Choices: rf.Choices, Replay: !rf.SeedOnly, LogKeep: 5000, Batch: 0})
 	for _, l := range r.Log {
 		fmt.Println(l)
 	}
